@@ -449,6 +449,7 @@ func (m *InterpModel) Call(mc *Machine, st *State, call ssa.CallInstruction, cal
 		case strings.Contains(full, "bufio") || (pkg == "os" && name != "Exit"):
 			e := m.ev(in, "io", argStrings(args), "")
 			e.KV["fn"] = full
+			e.KV["res"] = "io" + valName
 			if m.raised(st) {
 				e.KV["dirty"] = "T"
 			}
